@@ -47,13 +47,19 @@ def make_small(rng):
     n = rng.randint(1, 50)
     cols = {}
     k = rng.randint(1, 5)
+    numeric_only = rng.random() < 0.2
     for c in range(k):
-        kind = rng.choice(['int_unique', 'int_dup', 'float_nan', 'str', 'str_nan', 'obj_mixed', 'bool',
+        if numeric_only:
+            kind = rng.choice(['bigint_unique', 'float_nan', 'int_dup', 'bigint_unique', 'many_nan_float', 'int_unique'])
+        else:
+          kind = rng.choice(['int_unique', 'int_dup', 'float_nan', 'str', 'str_nan', 'obj_mixed', 'bool',
                            'str_unique', 'all_nan', 'unique_but_one_nan', 'Int64_na', 'boolean_na',
                            'Float64_na', 'string_na', 'Int64_unique_one_na', 'many_nan_float',
-                           'categorical_unused', 'datetime_nat'])
+                           'categorical_unused', 'datetime_nat', 'bigint_unique'])
         name = 'c%d_%s' % (c, kind)
-        if kind == 'int_unique':
+        if kind == 'bigint_unique':
+            cols[name] = pd.Series([2 ** 53 + 1 + 2 * x for x in rng.sample(range(10 * n + 5), n)], dtype='int64')
+        elif kind == 'int_unique':
             cols[name] = pd.Series(rng.sample(range(10 * n + 5), n), dtype='int64')
         elif kind == 'int_dup':
             cols[name] = pd.Series([rng.randint(0, max(1, n // 2)) for _ in range(n)], dtype='int64')
